@@ -18,7 +18,7 @@ From Coq Require Import List NArith Arith Bool.
 Import ListNotations.
 
 (* ------------------------------------------------------------------ the stream *)
-Record stream := mkS { s_content : list N; s_pos : nat; s_reads : list (nat * nat) }.
+Record stream := mkS { s_content : list N; s_pos : nat; s_reads : list (nat * nat); s_seeks : nat }.
 
 (* at_end_of_stream/1 *)
 Definition at_end_of_stream (s : stream) : bool := length (s_content s) <=? s_pos s.
@@ -26,10 +26,10 @@ Definition at_end_of_stream (s : stream) : bool := length (s_content s) <=? s_po
 (* get_n_chars/3 with an integer N: min(N, remaining) characters, the position advances past them *)
 Definition get_n_chars (n : nat) (s : stream) : list N * stream :=
   let cs := firstn n (skipn (s_pos s) (s_content s)) in
-  (cs, mkS (s_content s) (s_pos s + length cs) ((s_pos s, length cs) :: s_reads s)).
+  (cs, mkS (s_content s) (s_pos s + length cs) ((s_pos s, length cs) :: s_reads s) (s_seeks s)).
 
-(* set_stream_position/2 (stream_property(S, position(P)) is s_pos) *)
-Definition set_stream_position (s : stream) (p : nat) : stream := mkS (s_content s) p (s_reads s).
+(* set_stream_position/2 (stream_property(S, position(P)) is s_pos); s_seeks counts the calls *)
+Definition set_stream_position (s : stream) (p : nat) : stream := mkS (s_content s) p (s_reads s) (S (s_seeks s)).
 
 (* ------------------------------------------------------------------ positions saved in suspensions *)
 Inductive pos := PNum (p : nat) | PEof.      (* an integer, or the atom eof (reposition(false) only) *)
@@ -42,7 +42,7 @@ Definition bb_init : bb := mkB [] false (PNum 0) 0.
 
 Record mstate := mkM { m_s : stream; m_bb : bb }.
 
-Definition m_init (content : list N) : mstate := mkM (mkS content 0 []) bb_init.
+Definition m_init (content : list N) : mstate := mkM (mkS content 0 [] 0) bb_init.
 
 Definition with_bpos (b : bb) (p : pos) : bb := mkB (b_buf b) (b_closed b) p (b_len b).
 
@@ -213,7 +213,7 @@ Definition force_all (rp : bool) (ctr : nat) (content : list N) : lstate :=
 Inductive parser (A : Type) :=
 | PRet (a : A)
 | PFail
-| PGet (i : nat) (k : option N -> parser A)
+| PGet (i : N) (k : option N -> parser A)
 | POr (p q : parser A)
 | PProbe (p : parser A).
 Arguments PRet {A} a.
@@ -227,7 +227,7 @@ Fixpoint run_list {A} (cs : list N) (p : parser A) : list A :=
   match p with
   | PRet a => [a]
   | PFail => []
-  | PGet i k => run_list cs (k (nth_error cs i))
+  | PGet i k => run_list cs (k (nth_error cs (N.to_nat i)))
   | POr p q => run_list cs p ++ run_list cs q
   | PProbe p => run_list cs p
   end.
@@ -237,7 +237,7 @@ Fixpoint run_list1 {A} (cs : list N) (p : parser A) : option A :=
   match p with
   | PRet a => Some a
   | PFail => None
-  | PGet i k => run_list1 cs (k (nth_error cs i))
+  | PGet i k => run_list1 cs (k (nth_error cs (N.to_nat i)))
   | POr p q => match run_list1 cs p with Some a => Some a | None => run_list1 cs q end
   | PProbe p => run_list1 cs p
   end.
@@ -245,20 +245,26 @@ Fixpoint run_list1 {A} (cs : list N) (p : parser A) : option A :=
 (* the position a probe sees: stream_property(S, position(P)) *)
 Definition probe_pos (st : lstate) : nat := s_pos (m_s (st_m st)).
 
-Definition log_probe (st : lstate) (log : list nat) : list nat :=
+(* The log of distinct consecutive positions seen by the probes.  Each entry carries the number of seeks and reads made
+   when it was taken: while that number is unchanged the position is unchanged and need not be compared. *)
+Definition probe_key (st : lstate) : nat := s_seeks (m_s (st_m st)) + length (s_reads (m_s (st_m st))).
+
+Definition log_probe (st : lstate) (log : list (nat * nat)) : list (nat * nat) :=
   match log with
-  | x :: _ => if x =? probe_pos st then log else probe_pos st :: log
-  | [] => [probe_pos st]
+  | (k, x) :: r => if k =? probe_key st then log
+                   else if x =? probe_pos st then (probe_key st, x) :: r
+                   else (probe_key st, probe_pos st) :: log
+  | [] => [(probe_key st, probe_pos st)]
   end.
 
-Record pstate := mkP { p_st : lstate; p_log : list nat }.
+Record pstate := mkP { p_st : lstate; p_log : list (nat * nat) }.
 
 (* all solutions on the lazy list *)
 Fixpoint run_lazy {A} (restore rp : bool) (ctr : nat) (p : parser A) (ps : pstate) : list A * pstate :=
   match p with
   | PRet a => ([a], ps)
   | PFail => ([], ps)
-  | PGet i k => let (x, st') := demand restore rp ctr i (p_st ps) in run_lazy restore rp ctr (k x) (mkP st' (p_log ps))
+  | PGet i k => let (x, st') := demand restore rp ctr (N.to_nat i) (p_st ps) in run_lazy restore rp ctr (k x) (mkP st' (p_log ps))
   | POr p q =>
     let mark := length (l_cells (st_l (p_st ps))) in
     let (xs, ps1) := run_lazy restore rp ctr p ps in
@@ -272,7 +278,7 @@ Fixpoint run_lazy1 {A} (restore rp : bool) (ctr : nat) (p : parser A) (ps : psta
   match p with
   | PRet a => (Some a, ps)
   | PFail => (None, ps)
-  | PGet i k => let (x, st') := demand restore rp ctr i (p_st ps) in run_lazy1 restore rp ctr (k x) (mkP st' (p_log ps))
+  | PGet i k => let (x, st') := demand restore rp ctr (N.to_nat i) (p_st ps) in run_lazy1 restore rp ctr (k x) (mkP st' (p_log ps))
   | POr p q =>
     let mark := length (l_cells (st_l (p_st ps))) in
     match run_lazy1 restore rp ctr p ps with
@@ -287,7 +293,7 @@ Fixpoint det_below {A} (k : nat) (p : parser A) : Prop :=
   match p with
   | PRet _ => True
   | PFail => True
-  | PGet i f => i < k /\ forall x, det_below k (f x)
+  | PGet i f => N.to_nat i < k /\ forall x, det_below k (f x)
   | POr _ _ => False
   | PProbe p => det_below k p
   end.
@@ -297,7 +303,7 @@ Fixpoint gets_below {A} (k : nat) (p : parser A) : Prop :=
   match p with
   | PRet _ => True
   | PFail => True
-  | PGet i f => i < k /\ forall x, gets_below k (f x)
+  | PGet i f => N.to_nat i < k /\ forall x, gets_below k (f x)
   | POr p q => gets_below k p /\ gets_below k q
   | PProbe p => gets_below k p
   end.
@@ -315,3 +321,168 @@ Definition buffer_inv (content : list N) (m : mstate) : Prop :=
   s_pos (m_s m) = b_len (m_bb m) /\
   (b_closed (m_bb m) = true -> b_len (m_bb m) = length content) /\
   match b_pos (m_bb m) with PNum bp => bp <= b_len (m_bb m) | PEof => True end.
+
+(* ================================================================== evaluation for the correspondence *)
+(* [run_fast] is [run_lazy] with a finger: the cursor a DCG keeps is a pointer into the list, not an index, and it is
+   restored on backtracking; here it is the pair (index b, known characters from b on) together with the cached length
+   of the materialised list.  PioProofs.run_fast_eq proves that answers, state and probe log are those of run_lazy. *)
+Record fstate := mkF { f_ps : pstate; f_b : N; f_suf : list N; f_ml : N }.
+
+Definition fdemand_slow (restore rp : bool) (ctr : nat) (i : N) (fs : fstate) : option N * fstate :=
+  let (x, st') := demand restore rp ctr (N.to_nat i) (p_st (f_ps fs)) in
+  let mat := lmat (st_l st') in
+  (x, mkF (mkP st' (p_log (f_ps fs))) i (skipn (N.to_nat i) mat) (N.of_nat (length mat))).
+
+Definition fdemand (restore rp : bool) (ctr : nat) (i : N) (fs : fstate) : option N * fstate :=
+  if (N.leb (f_b fs) i) && (N.ltb i (f_ml fs)) then
+    match skipn (N.to_nat (i - f_b fs)) (f_suf fs) with
+    | x :: r => (Some x, mkF (f_ps fs) i (x :: r) (f_ml fs))
+    | [] => fdemand_slow restore rp ctr i fs
+    end
+  else fdemand_slow restore rp ctr i fs.
+
+Definition funforce (mark : nat) (saved fs : fstate) : fstate :=
+  let st := p_st (f_ps fs) in
+  let st' := unforce mark st in
+  let ml := if mark <? length (l_cells (st_l st)) then N.of_nat (length (lmat (st_l st'))) else f_ml fs in
+  mkF (mkP st' (p_log (f_ps fs))) (f_b saved) (f_suf saved) ml.
+
+Fixpoint run_fast {A} (restore rp : bool) (ctr : nat) (p : parser A) (fs : fstate) : list A * fstate :=
+  match p with
+  | PRet a => ([a], fs)
+  | PFail => ([], fs)
+  | PGet i k => let (x, fs') := fdemand restore rp ctr i fs in run_fast restore rp ctr (k x) fs'
+  | POr p q =>
+    let mark := length (l_cells (st_l (p_st (f_ps fs)))) in
+    let (xs, fs1) := run_fast restore rp ctr p fs in
+    let (ys, fs2) := run_fast restore rp ctr q (funforce mark fs fs1) in
+    (xs ++ ys, fs2)
+  | PProbe p =>
+    run_fast restore rp ctr p (mkF (mkP (p_st (f_ps fs)) (log_probe (p_st (f_ps fs)) (p_log (f_ps fs)))) (f_b fs) (f_suf fs) (f_ml fs))
+  end.
+
+Definition f_init (rp : bool) (content : list N) : fstate := mkF (mkP (st_init rp content) []) 0%N [] 0%N.
+
+(* ------------------------------------------------------------------ the test grammars of checks/C47.py as parsers.
+   Each is the clause-by-clause reading of the DCG translation (library(dcgs)) of the grammar in the driver, called
+   through phrase/2 (so the final rest is []): a terminal list is a sequence of demands, each alternative / clause
+   choice is a POr, "S = []" is a demand that must answer None.  (The first, cut clauses of seq//1 and ...//0, which
+   test Cs0 == [] without binding anything, are not represented: they do not touch the list.)  Answers are lists of N. *)
+Definition want (c : N) (x : option N) {A} (k : parser A) : parser A :=
+  match x with Some y => if N.eqb y c then k else PFail | None => PFail end.
+
+(* Cs0 = [c1,..,ck|Cs1] at index i, then k *)
+Fixpoint lits {A} (cs : list N) (i : N) (k : parser A) : parser A :=
+  match cs with
+  | [] => k
+  | c :: r => PGet i (fun x => want c x (lits r (i + 1)%N k))
+  end.
+
+(* S = [] at index i *)
+Definition at_end {A} (i : N) (k : parser A) : parser A :=
+  PGet i (fun x => match x with None => k | Some _ => PFail end).
+
+(* ...//0 at index i with the rest known to be []: ( Cs0 = Cs ; Cs0 = [_|Cs1], ...(Cs1, Cs) ) *)
+Fixpoint dots_end {A} (fuel : nat) (i : N) (k : parser A) : parser A :=
+  match fuel with
+  | O => PFail
+  | S f => POr (at_end i k)
+               (PGet i (fun x => match x with Some _ => dots_end f (i + 1)%N k | None => PFail end))
+  end.
+
+Definition hash_step (h c : N) : N := N.modulo (h * 31 + c) 2147483647.
+
+(* c47p_fail --> "zzz", ... . *)
+Definition g_fail (fuel : nat) : parser (list N) :=
+  lits [122; 122; 122]%N 0%N (dots_end fuel 3%N (PRet [])).
+
+(* c47p_first3(St, A, B, C) --> [A, B, C], { c47_probe(St) }, ... . *)
+Definition g_first3 (fuel : nat) : parser (list N) :=
+  PGet 0%N (fun a => match a with None => PFail | Some a =>
+  PGet 1%N (fun b => match b with None => PFail | Some b =>
+  PGet 2%N (fun c => match c with None => PFail | Some c =>
+  PProbe (dots_end fuel 3%N (PRet [a; b; c])) end) end) end).
+
+(* c47p_all(St, Cs) --> seq(Cs), { c47_probe(St) }.    answer: [length; hash] of Cs *)
+Fixpoint g_all_from (fuel : nat) (i : N) (n h : N) : parser (list N) :=
+  match fuel with
+  | O => PFail
+  | S f => POr (PProbe (at_end i (PRet [n; h])))
+               (PGet i (fun x => match x with Some c => g_all_from f (i + 1)%N (n + 1)%N (hash_step h c) | None => PFail end))
+  end.
+Definition g_all (fuel : nat) : parser (list N) := g_all_from fuel 0%N 0%N 0%N.
+
+(* c47p_needle(St, B) --> seq(Bs), "needle", { c47_probe(St) }, ..., { length(Bs, B) }.    answer: [B] *)
+Definition needle_codes : list N := [110; 101; 101; 100; 108; 101]%N.
+(* ...(S3, S4), ( length(Bs, B), S4 = [] ): ( S3 = S4 ; S3 = [_|S], ...(S, S4) ) *)
+Fixpoint g_needle_from (fuel : nat) (i : N) (b : N) : parser (list N) :=
+  match fuel with
+  | O => PFail
+  | S f => POr (lits needle_codes i (PProbe (dots_end (S fuel) (i + 6)%N (PRet [b]))))
+               (PGet i (fun x => match x with Some _ => g_needle_from f (i + 1)%N (b + 1)%N | None => PFail end))
+  end.
+Definition g_needle (fuel : nat) : parser (list N) := g_needle_from fuel 0%N 0%N.
+
+(* c47p_alt(St, A) --> ( seq(A), { c47_probe(St) }, "xy" | { c47_probe(St) }, seq(A), "xz" ).   answer: [length; hash] of A *)
+Fixpoint g_alt_seq (fuel : nat) (i : N) (probe : bool) (c2 : N) (n h : N) : parser (list N) :=
+  match fuel with
+  | O => PFail
+  | S f =>
+    let m := lits [120%N; c2] i (at_end (i + 2)%N (PRet [n; h])) in
+    POr (if probe then PProbe m else m)
+        (PGet i (fun x => match x with Some c => g_alt_seq f (i + 1)%N probe c2 (n + 1)%N (hash_step h c) | None => PFail end))
+  end.
+Definition g_alt (fuel : nat) : parser (list N) :=
+  POr (g_alt_seq fuel 0%N true 121%N 0%N 0%N) (PProbe (g_alt_seq fuel 0%N false 122%N 0%N 0%N)).
+
+Definition grammar (g : N) (fuel : nat) : parser (list N) :=
+  match g with
+  | 0%N => g_fail fuel
+  | 1%N => g_first3 fuel
+  | 2%N => g_all fuel
+  | 3%N => g_needle fuel
+  | _ => g_alt fuel
+  end.
+
+(* ------------------------------------------------------------------ compact contents *)
+Inductive seg := SBase (start len : N) | SRep (c len : N) | SLit (cs : list N).
+
+Definition alpha_codes : list N := [97; 98; 99; 102; 103; 104; 105; 106; 107; 109; 111; 112; 113; 114; 115; 116; 117; 118; 119]%N.
+
+(* the background text of checks/C47.py: base(n)[i] *)
+Definition base_char (i : N) : N :=
+  if N.eqb (N.modulo i 61) 60 then 10%N else nth (N.to_nat (N.modulo i 19)) alpha_codes 0%N.
+
+Fixpoint base_from (k : nat) (i : N) : list N :=
+  match k with O => [] | S k' => base_char i :: base_from k' (i + 1)%N end.
+
+Definition expand_seg (s : seg) : list N :=
+  match s with
+  | SBase start len => base_from (N.to_nat len) start
+  | SRep c len => repeat c (N.to_nat len)
+  | SLit cs => cs
+  end.
+
+Definition expand (segs : list seg) : list N := concat (map expand_seg segs).
+
+(* ------------------------------------------------------------------ the comparison *)
+Record outcome := mkO { o_sols : list (list N); o_log : list N; o_final : N; o_reads : list (N * N) }.
+
+Definition run_case (rp : bool) (ctr : N) (g : N) (content : list N) : outcome :=
+  let (sols, fs) := run_fast true rp (N.to_nat ctr) (grammar g (length content + 2)) (f_init rp content) in
+  let st := p_st (f_ps fs) in
+  mkO sols (map (fun e => N.of_nat (snd e)) (rev (p_log (f_ps fs)))) (N.of_nat (probe_pos st))
+      (map (fun r => (N.of_nat (fst r), N.of_nat (snd r))) (rev (s_reads (m_s (st_m st))))).
+
+Definition list_eqb {A} (eqb : A -> A -> bool) : list A -> list A -> bool :=
+  fix go (a b : list A) : bool :=
+    match a, b with
+    | [], [] => true
+    | x :: a', y :: b' => eqb x y && go a' b'
+    | _, _ => false
+    end.
+
+(* sols / log / final as observed on the implementation (positions converted to character counts) *)
+Definition check_case (rp : bool) (ctr : N) (g : N) (segs : list seg) (sols : list (list N)) (log : list N) (final : N) : bool :=
+  let o := run_case rp ctr g (expand segs) in
+  list_eqb (list_eqb N.eqb) (o_sols o) sols && list_eqb N.eqb (o_log o) log && N.eqb (o_final o) final.
